@@ -341,6 +341,16 @@ def run(ctx) -> int:
                 at2 = f"{n2}({','.join('Y' + str(k) for k in range(a2))})"
                 text += "\n" + rng.choice([f"#heuristic {at1} : {at2}. [Y0@0,true]", f"#edge (X0,Y0) : {at1}, {at2}.",
                                            f"#external {at1} : {at2}.", f"#show t(Y0) : {at2}.", f"#project {at1} : {at2}."])
+        if rng.random() < 0.15:
+            # a predicate that is derived by a rule and used ONLY in the body of a directive: its rules and all its argument
+            # positions must survive (the bodies of directives count as usage)
+            nm = rng.choice(["only_h", "only_e", "only_s"])
+            text += f"\n{nm}(X,Y) :- {rng.choice(['dom(X), dom(Y)', 'edge(X,Y)', 'd(X), e(Y), X < Y'])}.\n" + rng.choice([
+                f"#heuristic pick(X) : {nm}(X,Y), w(Y). [Y@1,true]\n{{ pick(X) }} :- dom(X).",
+                f"#external lock(X) : {nm}(X,Y), w(Y).",
+                f"#edge (X,Y) : {nm}(X,Y).",
+                f"#show t(X,Y) : {nm}(X,Y).",
+                f"#project pick(X) : {nm}(X,Y), w(Y).\n{{ pick(X) }} :- dom(X)."])
         flags = rng.choice([default, default, allf, semcheck.flags_only(rng.choice(semcheck.ALL_TRAITS)), semcheck.flags_only()])
         preds = sorted(semcheck.predicates_of(corpus.parses(text) or []))
         inp = "auto" if rng.random() < 0.6 or not preds else rng.sample(preds, min(len(preds), rng.choice([1, 2])))
